@@ -142,7 +142,7 @@ m = {
  ],
  "checks": [check_entry(p["id"], CHECKS[p["id"]]) for p in props if p["id"] in CHECKS],
  "not_applicable": [{"property_id": p["id"], "reason": NOT_BUILT} for p in props if p["id"] not in CHECKS],
- "notes": "All checks: exit 0 held / 1 VIOLATION / 2 inconclusive. VERIF_SEED selects the PRNG stream. known_findings.json lists recorded defects (status known) and the repaired ones (status fixed, suppressing nothing); fix: commits in /repo repair the others. DESIGN.md section 11 is the build report (defects repaired, known findings, false alarms corrected, the 80 seeded changes and which check catches which). VERIF_NO_FUZZ=1 skips the libFuzzer part of the thorough tier.",
+ "notes": "All checks: exit 0 held / 1 VIOLATION / 2 inconclusive. VERIF_SEED selects the PRNG stream. known_findings.json lists recorded defects (status known) and the repaired ones (status fixed, suppressing nothing); fix: commits in /repo repair the others. DESIGN.md section 11 is the build report (defects repaired, known findings, false alarms corrected, the 100 seeded changes and which check catches which). VERIF_NO_FUZZ=1 skips the libFuzzer part of the thorough tier.",
 }
 json.dump(m, open(os.path.join(here, "MANIFEST.json"), "w"), indent=1)
 print("checks:", [c["property_id"] for c in m["checks"]])
